@@ -69,15 +69,21 @@ structure Keypair where
   repr : Bytes
 deriving DecidableEq, Repr
 
+/-- the (public key, representative) pair of `x25519ell2.ScalarBaseMult`, re-checked to be two
+    32-byte arrays (they are Go `[32]byte`s).  The check never fires — the byte-level tie would
+    show a missing key pair — it only makes the lengths available to the theorems without case
+    analysis through the curve arithmetic. -/
+def checkedPair (o : Option (Bytes × Bytes)) : Option (Bytes × Bytes) :=
+  match o with
+  | some (pub, repr) =>
+    if pub.length = publicKeyLength ∧ repr.length = representativeLength then some (pub, repr) else none
+  | none => none
+
 /-- one iteration of the `for` loop of `NewKeypair(true)` on 32 fresh random bytes:
     private key = SHA-512(bytes)[0:32], tweak = SHA-512(bytes)[63]; `none` = no representative -/
 def keypairOf (rnd32 : Bytes) : Option Keypair :=
-  let digest := sha512 rnd32
-  let priv := digest.take privateKeyLength
-  let tweak := digest.getD 63 0
-  match scalarBaseMultDirty priv tweak with
-  | some (pub, repr) => some ⟨priv, pub, repr⟩
-  | none => none
+  (checkedPair (scalarBaseMultDirty ((sha512 rnd32).take privateKeyLength) ((sha512 rnd32).getD 63 0))).map
+    (fun pr => ⟨(sha512 rnd32).take privateKeyLength, pr.1, pr.2⟩)
 
 /-- the rejection loop: retry with the next 32 tape bytes (about half of all keys have no
     representative).  `fuel` bounds the attempts; `none` = tape exhausted / out of fuel. -/
@@ -283,5 +289,31 @@ def Link.recv (l : Link) (chunk : Bytes) (rnd : Nat → Nat := fun _ => Consts.F
   let buf := l.rxBuf ++ chunk
   let (d, rest, pkts, err) := decodeLoop (linkCrypto l.keys.dec rnd) (buf.length + 2) l.dec buf []
   ({ l with dec := d, rxBuf := rest, dead := l.dead || err.isSome }, pkts, err)
+
+/-! ## a man in the middle who knows only the public bridge line (C02) -/
+
+structure Forged where
+  yRepr : Bytes
+  auth : Bytes
+  keySeed : Bytes
+  rest : Bytes
+deriving Repr
+
+/-- what an impostor can compute for the client representative `xRepr`: an own ephemeral key pair
+    (from the tape), DH with its **own** identity private key `bPriv`, and the ntor tags over a
+    transcript naming the identity public key `bTranscript` (its own, or the genuine public one) -/
+def forgeNtor (nodeID bTranscript bPriv xRepr tape : Bytes) : Option Forged :=
+  match newKeypair keypairFuel tape with
+  | none => none
+  | some (kp, rest) =>
+    let X := Prims.real.reprToPublic xRepr
+    let exps := Prims.real.x25519 kp.priv X ++ Prims.real.x25519 bPriv X
+    let (ks, auth) := Ntor.ntorCommon Prims.real.toPrims exps nodeID bTranscript X kp.pub
+    some ⟨kp.repr, auth, ks, rest⟩
+
+/-- anyone who knows `B` and `NODEID` can wrap arbitrary `Y' ‖ AUTH ‖ P_S` into a response with a
+    valid mark and MAC -/
+def forgeBlob (nodeID idPub yRepr auth pad : Bytes) (hour : Int) : Bytes :=
+  serverBlob Prims.real idPub nodeID yRepr auth pad hour
 
 end O4.Ref
